@@ -116,7 +116,7 @@ def check_property(pid, tier, seed):
     try:
         mlines, impl = runner.run_impl(harness_bin, cases, workdir)
         model = runner.run_model(mlines)
-        if tier == 'thorough' and prop.debug_build_too:
+        if (tier == 'thorough' and prop.debug_build_too) or getattr(prop, 'debug_in_quick', False):
             with build.lock():
                 dbg = build.harness_build('debug')
             # the debug build (overflow checks, debug_assert!) gets its own full correspondence run: traces of the two
@@ -313,6 +313,7 @@ def main(argv):
         build.ensure_all('release')
         with build.lock():
             build.harness_build_nohook()
+            build.harness_build('debug')
         return 0
     if argv[0] == 'replay':
         return replay(argv[1])
